@@ -106,15 +106,17 @@ def countChar32 : Str → Nat
 /-- what `u_fprintf(f, "%*.*S", n, n, text)` prints: at most `n` UNITS of `text`, left-padded with blanks to width `n` -/
 def printfS (n : Nat) (text : Str) : Str := List.replicate (n - text.length) 32 ++ text.take n
 
-/-- `write_uliteral(context, text, length, wrap)`; `length = none` is the C's negative length (count code points).
+/-- `write_uliteral(context, text, length, wrap)`; `length = none` is the C's negative length: the length in characters
+    (`u_countChar32`) decides whether the text fits, `u_strlen` units are printed.
     `none` = `-CIF_OVERLENGTH_LINE`; otherwise (units written, context) — the C's return value is the number of units. -/
 def writeULiteral (c : Ctx) (text : Str) (length : Option Nat) (wrap : Bool) : Option (Str × Ctx) :=
   let len := match length with | some n => n | none => countChar32 text
+  let units := match length with | some n => n | none => text.length
   if len = 0 then some ([], c)
   else if len + c.lastColumn > LINE then
-    if wrap then some (10 :: printfS len text, { c with lastColumn := (printfS len text).length })
+    if wrap then some (10 :: printfS units text, { c with lastColumn := (printfS units text).length })
     else none
-  else some (printfS len text, { c with lastColumn := c.lastColumn + (printfS len text).length })
+  else some (printfS units text, { c with lastColumn := c.lastColumn + (printfS units text).length })
 
 /-- `ENSURE_SPACED(context, t)` (always succeeds when the stream does) -/
 def ensureSpaced (c : Ctx) : Str × Ctx :=
@@ -318,7 +320,7 @@ def writeChar (c : Ctx) (text : Str) (quoted : Bool) (allowText : Bool) : W :=
 /-- `write_numb(context, value)` on the number's text and quoted flag -/
 def writeNumb (c : Ctx) (text : Str) (quoted : Bool) : W :=
   if quoted then writeChar c text true true
-  else match writeULiteral c text none c.separateValues with
+  else match writeULiteral c text none true with
     | none => .error ErrCodes.CIF_OVERLENGTH_LINE
     | some (o, c') => if o.isEmpty then .error ErrCodes.CIF_ERROR else .ok (o, c')
 
@@ -365,7 +367,7 @@ mutual
         if c1.isCif1 then .error ErrCodes.CIF_DISALLOWED_VALUE
         else
           -- write_table
-          andThen (literalOrError c1 [123] c1.separateValues) fun c2 =>
+          andThen (literalOrError c1 [123] true) fun c2 =>
             andThen (writeEntries es { c2 with writeItemNames := false }) fun c3 =>
               andThen (literalOrError c3 [32, 125] true) fun c4 =>
                 .ok ([], { c4 with separateValues := c2.separateValues, writeItemNames := c2.writeItemNames })
@@ -386,7 +388,10 @@ mutual
       let (o1, c2) := ensureSpaced c1
       andThen (.ok (o0 ++ o1, c2)) fun c2 =>
         andThen (writeChar c2 key true false) fun c3 =>
-          andThen (literalOrError c3 [58] false) fun c4 =>
+          -- a key that leaves no room for its colon cannot be written as a table key
+          andThen (match writeLiteral c3 [58] false with
+                   | none => .error ErrCodes.CIF_DISALLOWED_VALUE
+                   | some r => .ok r) fun c4 =>
             andThen (writeItem [] v c4) fun c5 => writeEntries rest c5
 end
 
@@ -423,7 +428,10 @@ def writeHeaderNames : List Str → Ctx → W
   | [], c => .ok ([], c)
   | n :: rest, c =>
     if c.isCif1 ∧ validate11 n = false then .error ErrCodes.CIF_DISALLOWED_CHAR
-    else andThen (.ok ([32] ++ n ++ [10], { c with lastColumn := 0 })) fun c1 => writeHeaderNames rest c1
+    else
+      -- a name that fills the line is not indented
+      let indent : Str := if countChar32 n < LINE then [32] else []
+      andThen (.ok (indent ++ n ++ [10], { c with lastColumn := 0 })) fun c1 => writeHeaderNames rest c1
 
 /-- `CIF_SCALARS`: the category of the scalar loop is the empty string -/
 def isScalars (cat : Option Str) : Bool := cat == some []
